@@ -3,6 +3,7 @@ import random
 import vlib
 import streamgen
 import stream_common as sc
+import c08
 
 LEVEL = "model_checking"
 PREFIXES = ["C01_"]
@@ -18,10 +19,13 @@ def run(ctx):
     n = 250 if q else 4000
     scens += [streamgen.random_scenario(rng) for _ in range(n)]
     ctx.notes["scenarios_random"] = n
+    nem = 80 if q else 1500
+    scens += [c08.random_scen(rng) for _ in range(nem)]   # edge-multi records (variable length, all three modes) are records too
+    ctx.notes["scenarios_edge_multi"] = nem
     sc.validate(ctx, scens, PREFIXES)
     return vlib.finish(ctx, LEVEL, RULE,
                        ["block time stamps are mutually consistent (first sample time = epoch + frame * period)",
-                        "edge-multi records are covered by C08's scenarios as well", "frame numbers up to 2^40 + stream length"])
+                        "edge-multi scenarios are shared with C08 (its generator); C08 additionally compares one-block and partitioned runs", "frame numbers up to 2^40 + stream length"])
 
 
 def replay(ctx, path):
